@@ -135,6 +135,17 @@ func c14Ops(rng *rand.Rand, nsvc int, empty bool) []c14Op {
 		{"WithProfiles", func(p *types.Project) (*types.Project, error) {
 			return p.WithProfiles([][]string{{}, {"extra"}, {"*"}}[rng.Intn(3)])
 		}},
+		// the argument is a slice of the receiver itself: the result must not keep it
+		{"WithProfiles(own)", func(p *types.Project) (*types.Project, error) {
+			if len(p.Profiles) == 0 {
+				q, err := p.WithProfiles([]string{"extra", "more"})
+				if err != nil {
+					return nil, err
+				}
+				return q.WithProfiles(q.Profiles)
+			}
+			return p.WithProfiles(p.Profiles)
+		}},
 		{"WithServicesEnabled", func(p *types.Project) (*types.Project, error) { return p.WithServicesEnabled(pick()...) }},
 		{"WithServicesDisabled", func(p *types.Project) (*types.Project, error) { return p.WithServicesDisabled(pick()...), nil }},
 		{"WithSelectedServices", func(p *types.Project) (*types.Project, error) {
@@ -311,7 +322,7 @@ func C14(c *core.Ctx) {
 			}
 			clean, _ := opB.Fn(cur)
 			after := proj.Dump(cur)
-			ev := c14Event{Op: op.Name, Before: core.HashStr(before), After: core.HashStr(after), History: append(append([]string{}, hist...), op.Name)}
+			ev := c14Event{Op: strings.TrimSuffix(op.Name, "(own)"), Before: core.HashStr(before), After: core.HashStr(after), History: append(append([]string{}, hist...), op.Name)}
 			ev.Shared = sharedObjects(cur, victim)
 			ev.TopDiff, ev.SvcDiff = topAndSvcDiff(cur, victim)
 			ev.Leaks = []string{}
